@@ -77,6 +77,11 @@ def build_cases(rng, tier):
             prog['rules'].append({'head': ('plus', ('cls', ('set', False, [('ch', 97), ('ch', 98), ('ch', 48)]))), 'bol': False, 'scs': None, 'trail': None})
         bufsize = r.pick([2, 3, 5, 8, 16, 17, 64, None])
         ws = long_inputs(prog, r.fork("in"), bufsize, 3)
+        # bytes that an input routine may mistake for something else: 0xFF (EOF as a char), NUL, ^Z, ^D, 0x80
+        rb = r.fork("bytes")
+        for w in ws:
+            for _ in range(rb.rng(1, 4)):
+                w.insert(rb.below(len(w) + 1), rb.pick([255, 255, 254, 128, 0, 26, 4]))
         scheds = schedules(r.fork("sch"), bufsize, 3)
         inputs = [('p', w, s[:200]) for w, s in zip(ws, scheds)] + [('f', ws[0], [])]
         extra = ["read"] if (be != 'cxx' and i % 2 == 0) else []
